@@ -35,6 +35,22 @@ def fam_refs(n):
     return "program p\n  x = " + s + "\nend program p\n"
 
 
+def fam_refs_component(n):
+    """nested references with a structure component innermost and extra arguments"""
+    s = "t%k"
+    for i in range(n):
+        s = "f%d(%s)" % (i, s) if i % 2 else "a%d(%s, 2)" % (i, s)
+    return "program p\n  x = " + s + "\nend program p\n"
+
+
+def fam_refs_typebound(n):
+    """nested type-bound references p%f(p%f(...))"""
+    s = "1"
+    for i in range(n):
+        s = "p%%f%d(%s)" % (i, s)
+    return "program p\n  x = " + s + "\nend program p\n"
+
+
 def fam_defop_pow(n):
     """valid expressions V(0)=a, V(d+1) = ( V(d) ) ** c + .y. b  (theorem
     Fp.Expr.parse_calls_exponential_witness: 2^d <= calls in the model)"""
@@ -144,6 +160,8 @@ def fam_units(n):
 FAMILIES = {
     "nested-parens": (fam_parens, 1, 32, 64),
     "nested-refs": (fam_refs, 1, 32, 64),
+    "nested-refs-component": (fam_refs_component, 1, 32, 64),
+    "nested-refs-typebound": (fam_refs_typebound, 1, 32, 64),
     "paren-pow-defined-unary": (fam_defop_pow, 1, 16, 32),
     "nested-if": (fam_if, 1, 32, 128),
     "nested-do": (fam_do, 1, 32, 128),
